@@ -153,11 +153,28 @@ def k_consensus(ctx, seqs):
     if not out.ok:
         ctx.violation("seqs_to_consensus:raised", "raised", out.describe(), None)
         return
-    kept = [c for c in cols if (n - sum(c.values())) <= n // 2]
     res = out.value
-    if not isinstance(res, str) or len(res) != len(kept):
-        ctx.violation("seqs_to_consensus:length", "consensus does not have one residue per kept position", res, len(kept))
+    gapped = any("-" in s_ for s_ in seqs)
+    if not isinstance(res, str):
+        ctx.violation("seqs_to_consensus:type", "consensus is not a string", res, None)
         return
+    if not gapped:
+        if len(res) != len(cols):
+            ctx.violation("seqs_to_consensus:length", "consensus does not have one residue per position", res, len(cols))
+            return
+        kept = cols
+    else:
+        # which gap-rich positions are dropped is not part of the property: the result must be readable as a most
+        # frequent residue of an increasing sub-sequence of positions
+        kept, p = [], 0
+        for ch in res:
+            while p < len(cols) and cols[p].get(ch, 0) != max(cols[p].values()):
+                p += 1
+            if p == len(cols):
+                ctx.violation("seqs_to_consensus:not-most-frequent", f"{res!r} cannot be read as most frequent residues of successive positions", res, [dict(c) for c in cols])
+                return
+            kept.append(cols[p])
+            p += 1
     for i, (ch, c) in enumerate(zip(res, kept)):
         if c.get(ch, 0) != max(c.values()):
             ctx.violation("seqs_to_consensus:not-most-frequent", f"position {i}: {ch!r} occurs {c.get(ch, 0)} times, the column maximum is {max(c.values())}",
